@@ -87,6 +87,60 @@ def chain_rows(case):
 STAGES = {"firing-rows": (fire_rows, "RulesTrace"), "modifier-chains": (chain_rows, "RulesTrace")}
 
 
+REG_PATTERNS = {"v1": r"zqva+", "v2": r"zqvb|zqvc", "e1": r"(zqx)?", "e2": r"(zqy)*"}
+
+
+def replay_registrations(ctx):
+    """TLC enumerates all sequences of 4 registrations over {two valid, two empty-matching patterns}; each is replayed on the
+    REAL rule() decorator (registry saved, emptied in place and restored) and the outcome of every step compared."""
+    import re as _re
+    import ctparse.rule as rm
+    from ..obs import base_env
+    import tempfile
+    import shutil
+    from .. import tlc as _tlc
+    r = ctx.mc("RuleReg", "MC_RuleReg.cfg", workers=1)
+    seqs = []
+    for ln in r.prints:
+        if ln.startswith('<<"REG"'):
+            seqs.append([(m.group(1), m.group(2), int(m.group(3))) for m in _re.finditer(r'<<"(\w+)",\s*"(\w+)",\s*(\d+)>>', ln)])
+    if len(seqs) < 100:
+        raise core.obsmod.MachineryError("RuleReg exported only %d sequences" % len(seqs))
+    bad = 0
+    for seq in seqs:
+        saved = (dict(rm.rules), dict(rm._regex), dict(rm._regex_str), dict(rm._str_regex), rm._regex_cnt)
+        rm.rules.clear(); rm._regex.clear(); rm._regex_str.clear(); rm._str_regex.clear()
+        rm._regex_cnt = 500
+        got = []
+        try:
+            for k, (pname, outcome, rid) in enumerate(seq):
+                def prod(ts, m):
+                    return None
+                prod.__name__ = "regRule%d" % k
+                try:
+                    rm.rule(REG_PATTERNS[pname])(prod)
+                    pid = rm._str_regex.get(REG_PATTERNS[pname], -1)
+                    got.append((pname, "ok", pid))
+                except ValueError:
+                    got.append((pname, "rejected", 0))
+            state_ok = (len(set(rm._str_regex.values())) == len(rm._str_regex) and set(rm._regex_str) == set(rm._str_regex.values())
+                        and set(rm._regex) == set(rm._regex_str) and all(not rx.match("") for rx in rm._regex.values())
+                        and all(rm._str_regex[v] == k2 for k2, v in rm._regex_str.items()))
+        finally:
+            rm.rules.clear(); rm.rules.update(saved[0]); rm._regex.clear(); rm._regex.update(saved[1])
+            rm._regex_str.clear(); rm._regex_str.update(saved[2]); rm._str_regex.clear(); rm._str_regex.update(saved[3]); rm._regex_cnt = saved[4]
+        want = [(p_, "rejected" if o == "rejected" else "ok", i) for p_, o, i in seq]
+        if got != want or not state_ok:
+            bad += 1
+            ctx.violation({"stage": "registration-sequences", "clause": "registry-differs-from-RuleReg"},
+                          "rule() registry after %r: got %r, expected %r, registry consistent=%s" % ([x[0] for x in seq], got, want, state_ok),
+                          {"stage": "registration-sequences", "sequence": seq, "got": got})
+        ctx.nontrivial.add(("regseq", tuple(x[0] for x in seq)))
+    ctx.evaluations += len(seqs)
+    ctx.traces += len(seqs)
+    ctx.stage_counts["registration-sequences"] = {"sequences": len(seqs), "rejected": bad}
+
+
 def run(ctx):
     rnd = random.Random(ctx.seed)
     ctx.rule_text = ("one structural observation of the whole registry (every rule definition in the syntax tree, every pattern x probe texts, every "
@@ -131,6 +185,8 @@ def run(ctx):
             for ch in itertools.product(mods.values(), repeat=n):
                 ccases.append({"pod_word": w, "mods": list(ch)})
     core.run_stage(ctx, "modifier-chains", ccases, chain_rows, "RulesTrace", sig_keys=(), nontrivial=lambda c: (c["pod_word"], tuple(c["mods"])))
+    # the decorator's registry under every sequence of registrations (RuleReg.tla exports them, incl. rejected patterns)
+    replay_registrations(ctx)
     ob = export(fired)
     v = ctx.judge("RuleBase", [ob])
     for r in v.rejects:
